@@ -183,6 +183,46 @@ def raw_path(ctx, tier):
                          "raw_vs_spec_differences": len(pending), "raw_token_tree_differences": tok_bad, "raw_known_class_optimizer_rewrote_rule": n_known})
 
 
+def skip_rewrite(ctx):
+    """the optimizer's skip-until node against the expression it replaces, (!(t1 | t2 ..) ~ ANY)*, as runtime types side by side in
+    the catalogue: same verdict and offset on every string AND every Span / Position sub-input (the node exists with pest_optimizer on
+    only, so a difference is a difference the option makes)"""
+    from .. import core, rtcat
+    envs, run = core.core_run(ctx.tier)
+    pairs = {e.name: getattr(e, "rewrite_pairs", []) for e in envs if getattr(e, "rewrite_pairs", None)}
+    want = {(en, i) for en, ps in pairs.items() for p in ps for i in p}
+    got = {}
+    for a, b, x, aa in run.records():
+        sid = a[:a.index("|")]
+        en, sn = sid.split(".")
+        k = (en, int(sn[1:]))
+        if k not in want:
+            continue
+        sid_, form, hx, ia, ib, f = rtcat.split_line(a)
+        pv = f["P"][:f["P"].index("=")] if f["P"].startswith("ok@") else f["P"][:5]
+        cv = f["C"][:f["C"].index(";")] if f["C"].startswith("ok@") else f["C"][:5]
+        got.setdefault((en, form, hx, ia, ib), {})[k[1]] = (pv, cv)
+    n = bad = 0
+    for (en, form, hx, ia, ib), d in got.items():
+        for (io, ir) in pairs[en]:
+            if io in d and ir in d:
+                n += 1
+                ctx.evaluations += 1
+                if d[io][0].startswith("ok@") and d[io][0] != "ok@%d" % (ia if form != "str" else 0):
+                    ctx.nontrivial.add(("skiprw", en, io, form, hx, ia, ib))
+                if d[io] != d[ir]:
+                    bad += 1
+                    if bad <= 3:
+                        env = [e for e in envs if e.name == en][0]
+                        ctx.violation("pest_optimizer changes what is accepted: the skip-until node gives %s (parse) / %s (check) where the expression it "
+                                      "replaces gives %s / %s, on %s %s [%d, %d)" % (d[io][0], d[io][1], d[ir][0], d[ir][1], form, hx, ia, ib),
+                                      {"optimized_shape": env.shape_sexps()[io], "unoptimized_shape": env.shape_sexps()[ir], "form": form,
+                                       "input_hex": hx, "a": ia, "b": ib, "optimized": d[io], "unoptimized": d[ir]})
+    ctx.coverage["skip_rewrite_cases"] = n
+    ctx.coverage["skip_rewrite_differences"] = bad
+    ctx.oblige("skip-until node == (!(t1 | ..) ~ ANY)* on %d (shape pair, input form) cases incl. Span / Position sub-inputs" % n, bad == 0 and n > 0)
+
+
 def check(ctx):
     ok = check_property_proofs(ctx, "C20")
     if not ok:
@@ -202,6 +242,7 @@ def check(ctx):
     # V1 for the raw path as well (translate_raw)
     gencore.v1(ctx, 150 if quick else 1500, which=("opt", "raw"))
     raw_path(ctx, ctx.tier)
+    skip_rewrite(ctx)
     # ... and the optimized build of the derive corpus against the same PEG spec (verdict / offset, then pair tree): both
     # sides of the pest_optimizer switch are compared with one reference, hence with each other
     # (T2 of the optimized build + the search for a failing input where it breaks; differences between the typed parser and
